@@ -1,4 +1,6 @@
 """Rules on the SAT layer (src/sat) shared by C15, C16 and C17."""
+import re
+
 from ..core import (
     Site,
     callee_of,
@@ -11,6 +13,7 @@ from ..core import (
     origins,
     data_deps,
     derives_from_local,
+    self_fields_read,
     proj_str,
     place_fields,
 )
@@ -719,6 +722,22 @@ def rule_child_pipes(ctx):
                 "Child::wait is called while the child's piped stdout has not been read to the end: a solver printing more than the pipe capacity blocks forever",
                 w.loc(),
             )
+        # stdin must not be fed by the waiting thread itself while stdout is piped and not yet drained: a child that
+        # answers more than a pipe buffer before it has read all of its input blocks, and so does the feeder
+        if piped_out or outs:
+            drains = [s for s in b.calls() if callee_matches(callee_of(s), DRAIN) and s.node["args"] and any(derives_from_local(b, s.node["args"][0], l, through_calls=True) for l in outs)]
+            for l in ins:
+                for s in b.calls():
+                    c = callee_of(s)
+                    if not c or s in drains:
+                        continue
+                    d = strip_generics(callee_name(c) or "")
+                    if not re.search(r"(^std::io::Write::(write|write_all|write_fmt|write_vectored)$|^std::io::copy|^std::io::util::copy|Write>?::(write|write_all|write_fmt)$)", d) and not re.search(r"io::(copy|Write)", d):
+                        continue
+                    if not any(derives_from_local(b, a, l, through_calls=True) for a in s.node["args"] if op_place(a) is not None):
+                        continue
+                    before_drain = not any(b.dominates(dr, s) for dr in drains)
+                    r.check(not before_drain, anchor, "stdin-fed-before-drain", "the child's stdin is not written by the waiting thread before stdout is drained", "the waiting thread itself writes the instance to the child's stdin (%s) before the child's piped stdout is drained: a child that prints more than a pipe buffer before consuming its input deadlocks with its feeder" % d, s.loc())
         # stdin: every ChildStdin value owned here must have been moved away (or dropped) before wait
         for l in ins:
             moved = False
@@ -966,3 +985,96 @@ def _quantity_roots(prog, body, op, depth=0):
                 if c and not c.get("local") and c.get("crate") not in ("std", "core", "alloc"):
                     roots.add(strip_generics(callee_name(c)))
     return roots
+
+
+def rule_variable_count_monotone(ctx):
+    """C15: the number of variables a back end knows never decreases"""
+    prog = ctx.prog
+    r = ctx.rule(
+        "variable-count-monotone",
+        "in every SatSolver impl, the integer fields `n_vars()` is computed from are only ever raised: each store outside the constructors is "
+        "`max(field, x)`, `field + k`, or `x` under the test `x > field`; a variable that was reserved or used stays known (the model covers it, "
+        "`1 + n_vars()` selectors stay fresh)",
+    )
+    n = 0
+    for imp, nb in prog.impl_methods(SATSOLVER, "n_vars"):
+        owner = imp.get("self_adt")
+        adt = prog.adt(owner) if owner else None
+        if adt is None:
+            continue
+        int_fields = {f["name"] for v in adt["variants"] for f in v["fields"] if f["ty"] in ("usize", "isize", "i32", "u32", "i64", "u64")}
+        read = {f for f in self_fields_read(nb, {"l": 0, "p": []}) if f in int_fields}
+        if not read:
+            r.ok(nb.id, "n_vars() reads no integer field of %s (delegation)" % owner, nb.loc())
+            continue
+        for b in prog.lib_bodies():
+            if b.kind == "closure" and prog.enclosing_fn(b).impl and prog.enclosing_fn(b).impl.get("self_adt") == owner:
+                fnb = prog.enclosing_fn(b)
+            elif b.impl and b.impl.get("self_adt") == owner:
+                fnb = b
+            else:
+                continue
+            if fnb.n_args == 0:
+                continue  # constructors initialise
+            for s in b.sites():
+                nd = s.node
+                if s.si is None or nd["k"] != "assign":
+                    continue
+                fl = [str(x) for x in place_fields(nd["dst"])]
+                target = None
+                if b is fnb and nd["dst"]["l"] == 1 and len(fl) == 1 and fl[0] in read:
+                    target = fl[0]
+                elif b.kind == "closure" and nd["dst"]["p"] and fl and fl[-1] in read and len(fl) <= 2:
+                    # (*self_ref).field inside a closure capturing self
+                    if any(o.kind == "upvar" for o in origins(b, {"l": nd["dst"]["l"], "p": []}, transparent=())):
+                        target = fl[-1]
+                if target is None and b.kind == "closure" and nd["dst"]["p"] == ["*"]:
+                    # a disjoint capture of the field itself: upvar named `*self.<field>`
+                    for o in origins(b, {"l": nd["dst"]["l"], "p": []}, transparent=()):
+                        if o.kind == "upvar" and not o.fields:
+                            m = re.search(r"self\.(\w+)$", b.upvar_name(o.data) or "")
+                            if m and m.group(1) in read:
+                                target = m.group(1)
+                if target is None:
+                    continue
+                if "&mut" not in fnb.local_ty(1) and b is fnb:
+                    continue
+                n += 1
+                anchor = "%s.%s|%s" % (owner, target, strip_generics(b.id))
+                ok = None
+                rv = nd["rv"]
+
+                def reads_field(op):
+                    p = op_place(op)
+                    if p is None:
+                        return False
+                    for o in origins(b, op, transparent=()):
+                        if o.kind in ("param", "upvar") and o.fields and str(o.fields[-1]) == target:
+                            return True
+                        if o.kind == "upvar" and not o.fields and re.search(r"self\.%s$" % re.escape(target), b.upvar_name(o.data) or ""):
+                            return True
+                    return False
+
+                if rv["k"] == "use":
+                    for o in origins(b, rv["ops"][0], transparent=()):
+                        if o.kind == "call" and callee_matches(o.data, r"^core::cmp::(Ord::max|max)$"):
+                            ok = any(reads_field(a) for a in o.site.node["args"])
+                        elif o.kind == "binop" and o.data["op"] in ("Add", "AddWithOverflow"):
+                            ok = any(reads_field(a) for a in o.data["ops"])
+                        else:
+                            # x stored under the test x > field
+                            ok = False
+                            for c in conditions(b, s.bb):
+                                if c.is_discr:
+                                    continue
+                                for oo in origins(b, c.place, transparent=()):
+                                    if oo.kind == "binop" and oo.data["op"] in ("Gt", "Lt", "Ge", "Le"):
+                                        a0, a1 = oo.data["ops"]
+                                        gt = oo.data["op"] in ("Gt", "Ge")
+                                        new_side, old_side = (a0, a1) if gt else (a1, a0)
+                                        if c.is_true() and reads_field(old_side) and not reads_field(new_side):
+                                            ok = True
+                elif rv["k"] == "binop" and rv["op"] in ("Add", "AddWithOverflow"):
+                    ok = any(reads_field(a) for a in rv["ops"])
+                r.check(bool(ok), anchor, "non-monotone-store", "the stored value is max(old, x) / old + k / x under x > old", "`%s` (read by n_vars()) is overwritten with a value that can be smaller than the current one: variables the solver already knows are forgotten" % target, s.loc())
+    r.floor(n, 2, "stores to the variable-count fields of the back ends")
